@@ -258,8 +258,10 @@ theorem sendPushPromise_ev (s : Streams) (parent pk pid : Nat) (fields : List Hp
   · exact .refl _
   · split
     · exact .refl _
-    · unfold Streams.queueFrame
-      exact .trans (.queuePP parent pk pid fields hl) (scheduleSend_ev _ _)
+    · split
+      · exact .refl _
+      · unfold Streams.queueFrame
+        exact .trans (.queuePP parent pk pid fields hl) (scheduleSend_ev _ _)
 
 theorem sendRecvStreamWindowUpdate_ev (s : Streams) (id sz : Nat) : Ev s (s.sendRecvStreamWindowUpdate id sz).1 := by
   unfold Streams.sendRecvStreamWindowUpdate
